@@ -193,6 +193,36 @@ func inventoryOf(m *Module) []invEntry {
 					}
 				}
 			}
+			// channels: a package-level channel that is sent on or received from is shared state too
+			switch x := in.(type) {
+			case *ssa.Send:
+				g, _ = rootGlobal(x.Chan)
+			case *ssa.Select:
+				for _, st := range x.States {
+					if gg, _ := rootGlobal(st.Chan); gg != nil {
+						g = gg
+					}
+				}
+			case *ssa.UnOp:
+				if x.Op == token.ARROW {
+					g, _ = rootGlobal(x.X)
+				}
+			}
+			// objects: a field of a named struct type that is changed in an object that already
+			// exists (not the one this function has just built), as a whole or element-wise
+			for _, fw := range fieldWritesOf(in) {
+				if fieldNeverRead(fn.Prog, fw.fa) {
+					continue
+				}
+				nt := fw.named
+				if nt.Obj().Pkg() == nil || m.byPath[nt.Obj().Pkg().Path()] == nil {
+					continue
+				}
+				frel := strings.TrimPrefix(strings.TrimPrefix(nt.Obj().Pkg().Path(), m.modulePath()), "/")
+				fld := refTypeNameOf(nt) + "." + refFieldName(fw.fa.X.Type(), fw.fa.Field)
+				add("field\t"+tname+"\t"+short(nt.Obj().Pkg().Path())+"."+fld+"\t"+fw.kind, in.Pos(), frel,
+					"changes field "+fld+" of an existing object ("+fw.kind+")")
+			}
 			if g == nil || g.Pkg == nil || m.byPath[g.Pkg.Pkg.Path()] != g.Pkg {
 				continue
 			}
@@ -283,4 +313,90 @@ func dumpInventory(repo string) {
 		}
 		prev = l
 	}
+}
+
+type fieldWrite struct {
+	fa    *ssa.FieldAddr
+	named *types.Named
+	kind  string // assign | element
+}
+
+// fieldWritesOf: the writes instruction in makes to fields of objects it did not allocate
+// itself: p.f = v (assign), p.f[i] = v / p.f[k] = v / copy(p.f[…], …) (element).
+func fieldWritesOf(in ssa.Instruction) []fieldWrite {
+	var out []fieldWrite
+	fieldOf := func(addr ssa.Value, throughLoad bool) (*ssa.FieldAddr, bool) {
+		// addr is &p.f (assign) or derived from a load of p.f (element)
+		v := addr
+		loaded := false
+		for i := 0; i < 6; i++ {
+			switch x := v.(type) {
+			case *ssa.FieldAddr:
+				if _, fresh := x.X.(*ssa.Alloc); fresh {
+					return nil, false
+				}
+				// … or a pointer variable that holds the object this (top-level) function built
+				if a, ok := deref(x.X).(*ssa.Alloc); ok && fnameTop(a.Parent()) == fnameTop(in.Parent()) {
+					if _, isStruct := a.Type().Underlying().(*types.Pointer).Elem().Underlying().(*types.Struct); isStruct {
+						return nil, false
+					}
+				}
+				return x, loaded
+			case *ssa.IndexAddr:
+				v = x.X
+			case *ssa.Slice:
+				v = x.X
+			case *ssa.UnOp:
+				if x.Op != token.MUL {
+					return nil, false
+				}
+				v = x.X
+				loaded = true
+			default:
+				return nil, false
+			}
+		}
+		return nil, false
+	}
+	namedOf := func(fa *ssa.FieldAddr) *types.Named {
+		pt, ok := fa.X.Type().Underlying().(*types.Pointer)
+		if !ok {
+			return nil
+		}
+		nt, _ := pt.Elem().(*types.Named)
+		return nt
+	}
+	record := func(addr ssa.Value, forceElement bool) {
+		fa, loaded := fieldOf(addr, false)
+		if fa == nil {
+			return
+		}
+		nt := namedOf(fa)
+		if nt == nil {
+			return
+		}
+		kind := "assign"
+		if loaded || forceElement {
+			kind = "element"
+		}
+		out = append(out, fieldWrite{fa, nt, kind})
+	}
+	switch x := in.(type) {
+	case *ssa.Store:
+		if _, isFA := x.Addr.(*ssa.FieldAddr); isFA {
+			record(x.Addr, false)
+		} else {
+			// an element of a slice/array held in a field
+			if ia, isIA := x.Addr.(*ssa.IndexAddr); isIA {
+				record(ia.X, true)
+			}
+		}
+	case *ssa.MapUpdate:
+		record(x.Map, true)
+	case *ssa.Call:
+		if b, isB := x.Call.Value.(*ssa.Builtin); isB && b.Name() == "copy" && len(x.Call.Args) == 2 {
+			record(x.Call.Args[0], true)
+		}
+	}
+	return out
 }
